@@ -937,9 +937,58 @@ def run(ctx):
             elif io != mo:
                 ctx.failed_obligations.append(
                     f"correspondence on malformed stream: impl {io[-160:]!r} model {mo[-160:]!r} :: {l[:120]}")
+    window_cases(ctx, ok)
     ctx.assumptions += [
         "the bit reader is modelled abstractly (bit list, zero padded peeks, silent failure of the unchecked consume in read_uint_prefilled); the 64-bit buffer refill is exercised only through the correspondence run",
         "dist_multiplier < 2^27 (offset + multiplier*dist is computed in i32 by the code)",
         "fewer than 2^32 symbols per stream (num_decoded/copy_pos are u32 in the code)",
         "prefix codes are modelled at the Spec level (canonical code from the length vector); the two-level bit-reversed tables are tied to it by execution only",
     ]
+
+
+def window_cases(ctx, ok):
+    """the 2^20-value LZ77 window: a tiny stream that expands past 2^20 values (one long overlapping
+    copy), then copies from exactly the window size, one less, and beyond it (clamped). Expected
+    values come from the Lean encoder's `expandItems`; only the real decoder is run on them (the
+    list-based model decoder is not meant for a million symbols)."""
+    if not ok:
+        return
+    W = 1 << 20
+    rng = ctx.rng
+    for coder in (["H", "A 8"] if not ctx.quick else [rng.choice(["H", "A 8"])]):
+        a, b, c = rng.sample(range(1, 200), 3)
+        period = rng.choice([3, 5, 7])
+        lits = [a, b, c, a + 1, b + 1, c + 1, a + 2][:period]
+        items = [f"l 0 {v}" for v in lits]
+        items.append(f"c 0 {W + rng.randint(0, 50)} {period - 1}")          # distance = period
+        for dist in (W, W - 1, W + 5, W - 2, 1 << 21):
+            items.append(f"c 0 {rng.randint(3, 9)} {dist - 1}")              # mult 0: code = distance - 1
+        plan = f"P 1 L 224 3 4 1 1 2 0 1 1 S {coder} 2 4 1 1 4 1 1 2 U pa aa U pa aa"
+        line = f"enc 0 {plan} {len(items)} {' '.join(items)}"
+        enc, rc, err = ctx.run_model("c04enc", [line], timeout=600)
+        if rc != 0 or not enc or not enc[0].startswith("ok"):
+            ctx.notes["window_case"] = "encoder refused: " + (enc[0][:120] if enc else err[-120:])
+            continue
+        w = enc[0].split()
+        nbits, hexs = int(w[1]), w[2]
+        k = w.index("exp")
+        n = int(w[k + 1])
+        exp = list(map(int, w[k + 2:k + 2 + n]))
+        dec_line = f"dec 1 0 {hexs} {n} " + " ".join(["0"] * n)
+        out = run_lines_robust([ctx.harness_bin("c04")], [dec_line], per_line_timeout=300)[0] or "crash"
+        ctx.case(("window", line), nontrivial=True)
+        ctx.count("window-cases")
+        replay = {"enc_line": line[:2000], "stream_hex": hexs, "n": n,
+                  "how": "enc_line | jxlmodel c04enc ; 'dec 1 0 <hex> <n> 0*n' | harness/target/debug/c04"}
+        d = parse_dec(out)
+        if d is None:
+            key = panic_key(out) or "c04:window:" + out.split()[0][:40]
+            ctx.violation("lz77-window-decode-failed", out[:300], replay, key=key)
+            continue
+        got = [v for v, _ in d["vals"]]
+        if got != exp:
+            i = next((j for j, (x, y) in enumerate(zip(got, exp)) if x != y), min(len(got), len(exp)))
+            ctx.violation("lz77-window-copy-wrong", f"first difference at symbol {i}: got {got[i:i+4]} expected {exp[i:i+4]}",
+                          replay, key="c04:lz77-window")
+        elif d["end"] != nbits:
+            ctx.violation("lz77-window-bit-count", f"consumed {d['end']} of {nbits}", replay, key="c04:lz77-window-bits")
